@@ -216,6 +216,22 @@ def observed_model(intro):
     return {"messages": msgs, "enums": enums, "routes": routes}
 
 
+def front_end_rejected(ev):
+    """protoc itself rejected the program (the plugin never ran): generator noise, never a plugin failure"""
+    return ev["rc"] != 0 and "python_betterproto" not in ev["err"] and "Traceback" not in ev["err"]
+
+
+def drop_rejected(ctx, events, *parallel):
+    """remove programs protoc's front end rejects from events (and from lists parallel to it); too many = machinery error"""
+    from .common import MachineryError
+    keep = [k for k, e in enumerate(events) if not front_end_rejected(e)]
+    n = len(events) - len(keep)
+    ctx.notes["rejected_by_protoc_front_end"] = ctx.notes.get("rejected_by_protoc_front_end", 0) + n
+    if n and n * 10 > len(events):
+        raise MachineryError("%d of %d generated programs are rejected by protoc's front end: %s" % (n, len(events), [e["err"][-200:] for e in events if front_end_rejected(e)][:2]))
+    return [[lst[k] for k in keep] for lst in (events,) + parallel]
+
+
 def compile_event(workdir, name, protos, options=(), keep=False):
     """generate + import + describe: one event for Trace_Plugin"""
     import shutil
